@@ -29,6 +29,19 @@ CLAIMS = {
  "C13": ("model_checking", P1 + "WelfordRolling mean()/last() (population variance through the square), Drawdown (running maximum of relative declines) "
          "and LnReturn (ln series) against batch definitions over the whole history; integer and decimal positive alphabets.",
          "exhaustive model checking of TLA+ definitions against the implementation's complete behaviour tree", "5 C13"),
+ "C04": ("model_checking", P1 + "Four invariants on real observations: interval (answer inside [min,max] of the averaged values), constant "
+         "window reproduced, monotone (every single-position raise of the history is compared with its sibling), affine (second real run "
+         "over a*x+b); plus the Ema recurrence for default and custom alpha (exact rationals, alphabets through 0 and sign changes) and the "
+         "Alma Gaussian kernel (fixed point) as definitions.",
+         "exhaustive model checking of TLA+ invariants and definitions against the implementation's behaviour trees (one and two runs)", "5 C04"),
+ "C12": ("model_checking", "Self-composition as a product of two real behaviour trees: every history x of the scope and its transform a*x+b "
+         "(a=2 bit-exact, a=3/2, a=3 b=5/2, a=-1 with Min/Max swapped) run through the real views; TLC checks the relation table of MC_Rel.tla "
+         "(invariant / scaled / affine / negated / 100-Rsi) in every state where the window is not flat.",
+         "exhaustive model checking of a relation table over pairs of real runs (self-composition)", "5 C12"),
+ "C14": ("model_checking", P1 + "Add/Subtract/Multiply/Divide over all pairs of {Echo, Constant, Sma(2), Roc(1), LnReturn}, GTE/LTE/Tanh/Echo/Constant: "
+         "the answer must equal the exact rational combination of the children's definitions at every history (which makes it a function "
+         "of the current children values only); where operands and result are dyadic the observation must be exactly that number (bit-exact).",
+         "exhaustive model checking of TLA+ definitions against the implementation's complete behaviour tree", "5 C14"),
 }
 
 def main():
